@@ -207,3 +207,69 @@ fn u7_taiko_genstate_acc_search_n6() {
 fn u7_taiko_genstate_acc_search_n12() {
     acc_search(12);
 }
+
+// ---- C07: TaikoPerformance::try_from(OsuPerformance) ----------------------------------------------------------------
+use crate::osu::OsuPerformance;
+
+fn osu_builder(map_or_attrs: MapOrAttrs<'static, crate::osu::Osu>) -> (OsuPerformance<'static>, Difficulty) {
+    let d = any_difficulty();
+    let o = OsuPerformance {
+        map_or_attrs,
+        difficulty: d.clone(),
+        acc: None,
+        combo: any_opt(),
+        large_tick_hits: any_opt(),
+        small_tick_hits: any_opt(),
+        slider_end_hits: any_opt(),
+        n300: any_opt(),
+        n100: any_opt(),
+        n50: any_opt(),
+        misses: any_opt(),
+        hitresult_priority: if kani::any() { HitResultPriority::BestCase } else { HitResultPriority::WorstCase },
+    };
+    (o, d)
+}
+
+// NOTE: the same obligation for a builder holding an owned (object-free) osu! map - conversion succeeds, settings are
+// carried over - did not finish within 500 s (Cow<Beatmap> moves); only the attributes case is registered.
+//@ obl: id=U9.try_from.taiko.attrs harness=u9_try_from_taiko_attrs props=C07 tier=quick kind=proof
+//@ fns: <TaikoPerformance as TryFrom<OsuPerformance>>::try_from, OsuPerformance::try_convert_map
+//@ bound: osu! builder created from attributes; all u32 values of the score fields, all legacy mod bits
+//@ clause: an osu! builder that holds attributes instead of a map cannot be converted: it is handed back unchanged
+#[kani::proof]
+#[kani::unwind(4)]
+fn u9_try_from_taiko_attrs() {
+    try_from_taiko(false);
+}
+
+fn try_from_taiko(with_map: bool) {
+    let (o, d) = if with_map {
+        let mut m = crate::Beatmap::default();
+        m.is_convert = kani::any();
+        osu_builder(MapOrAttrs::Map(std::borrow::Cow::Owned(m)))
+    } else {
+        osu_builder(MapOrAttrs::Attrs(crate::osu::OsuDifficultyAttributes::default()))
+    };
+    let should_convert = with_map && match &o.map_or_attrs {
+        MapOrAttrs::Map(m) => !m.is_convert,
+        MapOrAttrs::Attrs(_) => false,
+    };
+    let (combo, n300, n100, misses, prio) = (o.combo, o.n300, o.n100, o.misses, o.hitresult_priority);
+    match TaikoPerformance::try_from(o) {
+        Ok(t) => {
+            assert!(should_convert, "C07 only an un-converted osu! map converts");
+            assert!(t.combo == combo && t.n300 == n300 && t.n100 == n100 && t.misses == misses && t.hitresult_priority == prio, "C07 score settings carried over to the taiko builder");
+            assert!(t.difficulty == d, "C07 Difficulty carried over to the taiko builder");
+            match &t.map_or_attrs {
+                MapOrAttrs::Map(m) => assert!(m.mode == GameMode::Taiko && m.is_convert, "C07 the taiko builder holds the converted map"),
+                MapOrAttrs::Attrs(_) => assert!(false, "C07 the taiko builder holds a map"),
+            }
+            std::mem::forget(t);
+        }
+        Err(back) => {
+            assert!(!should_convert, "C07 an un-converted osu! map must convert");
+            assert!(back.combo == combo && back.n300 == n300 && back.misses == misses && back.difficulty == d, "C07 the osu! builder is handed back unchanged");
+            std::mem::forget(back);
+        }
+    }
+}
